@@ -4,9 +4,9 @@ import itertools
 
 ID = "C10"
 THEOREM_MODULE = "SimVerif.Props.C10"
-NONTRIVIAL_FLAGS = {"results", "errors", "multi-cand", "owned-multi", "interleaved-shards", "only-baked", "plan-workersfirst", "plan-callerfirst", "plan-order"}
+NONTRIVIAL_FLAGS = {"iterator", "results", "errors", "multi-cand", "owned-multi", "interleaved-shards", "only-baked", "plan-workersfirst", "plan-callerfirst", "plan-order"}
 RULE = ("cases = a store with 1..4 shards filled with tracks of 0..3 observations in 1..3 classes (mixed compatibility and status through the attribute values), then `store fdist` (1..4 external candidates) and `store odist` (stored candidates) "
-        "with both only_baked settings; before a query a schedule plan is installed through the similari_verif hook: `order` = an explicit interleaving of the per-shard command executions (all interleavings for <=6 commands in the thorough tier, random otherwise), "
+        "with both only_baked settings, the results read either with all() or through the streaming iterators (`fdisti` / `odisti`); before a query a schedule plan is installed through the similari_verif hook: `order` = an explicit interleaving of the per-shard command executions (all interleavings for <=6 commands in the thorough tier, random otherwise), "
         "`workersfirst` = every queued command runs before the caller leaves the owned-query window, `callerfirst` = workers held until the call has returned; the executor returns the sorted result multiset, the error count, the shard dump and the observed execution trace; "
         "non-trivial = a query with results / errors / several candidates / a forced interleaving; distinct = distinct request line")
 TRUSTED_BASE = ["Lean 4.33 kernel", "axioms: propext, Quot.sound, Classical.choice (at most)",
@@ -50,7 +50,7 @@ def generate(rng, tier):
                     rng.shuffle(seq)
                     lines.append("store sched order %d %s" % (len(seq), " ".join(map(str, seq))))
                 cands = " ".join(trackspec(rng, rng.choice([20, 21, 22, 23] + ids), clean=True) for _ in range(k))
-                lines.append("store fdist %d %d %d %s" % (cls, ob, k, cands))
+                lines.append("store %s %d %d %d %s" % (rng.choice(["fdist", "fdisti"]), cls, ob, k, cands))
             else:
                 k = rng.randint(1, 4)
                 sel = [rng.choice(ids + [99]) for _ in range(k)]
@@ -58,7 +58,7 @@ def generate(rng, tier):
                 r = rng.random()
                 if r < 0.35: lines.append("store sched workersfirst")
                 elif r < 0.7: lines.append("store sched callerfirst")
-                lines.append("store odist %d %d %d %s" % (cls, ob, len(sel), " ".join(map(str, sel))))
+                lines.append("store %s %d %d %d %s" % (rng.choice(["odist", "odisti"]), cls, ob, len(sel), " ".join(map(str, sel))))
         cases.append(lines)
     if tier == "thorough":
         for nsh, k in [(2, 1), (2, 2), (3, 1), (2, 3), (3, 2)]:
